@@ -5,6 +5,7 @@
 // when the history says so, one reused Decoder.  Geometry 1 is a mesh, geometry 2 a point cloud; option set 1 = speed 10 with 14-bit positions, 2 = speed 0 with 10-bit
 // positions, 3 = invalid (31 quantisation bits: the encoder must refuse it every time).
 #include "geom.h"
+#include "draco/metadata/geometry_metadata.h"
 #include "draco/compression/mesh/mesh_edgebreaker_encoder.h"
 #include "draco/compression/point_cloud/point_cloud_sequential_encoder.h"
 using namespace draco;
@@ -24,6 +25,12 @@ static Geom make_geom(int g) {
   AttDesc c{GeometryAttribute::GENERIC, DT_UINT8, 2, false, true, np};
   const int cid = add_attribute(x.pc.get(), c, np);
   for (int i = 0; i < np; ++i) { uint8_t v[2] = {(uint8_t)(i * 7), (uint8_t)(g * 50 + i)}; x.pc->attribute(cid)->SetAttributeValue(AttributeValueIndex(i), v); }
+  {  // both geometries carry metadata: the header flag and the metadata block are written relative to where the stream starts in the buffer
+    std::unique_ptr<GeometryMetadata> md(new GeometryMetadata());
+    md->AddEntryString("name", g == 1 ? "mesh" : "cloud");
+    md->AddEntryInt("answer", 40 + g);
+    x.pc->AddMetadata(std::move(md));
+  }
   if (x.is_mesh)
     for (int y = 0; y < 2; ++y) for (int xx = 0; xx < 2; ++xx) {
       const int a = y * 3 + xx;
@@ -70,6 +77,7 @@ static int run_replay(const char *path) {
     PointCloudSequentialEncoder ll_pc;
     EncoderBuffer buf;
     Decoder dec;
+    DecoderBuffer reused_db;      // one DecoderBuffer object for every decode of the history (mesh streams are 2.2, cloud streams 2.3)
     size_t last_start = 0, last_len = 0;
     int step = 0;
     for (auto &c : row["calls"].a) {
@@ -115,7 +123,7 @@ static int run_replay(const char *path) {
         auto t = Decoder::GetEncodedGeometryType(&db);
         bool ok = false; uint64_t dg = 0; long rem = -1;
         if (t.ok()) {
-          DecoderBuffer d2; d2.Init(s.data(), s.size());
+          DecoderBuffer &d2 = reused_db; d2.Init(s.data(), s.size());
           if (t.value() == TRIANGULAR_MESH) { Mesh m; ok = dec.DecodeBufferToGeometry(&d2, &m).ok(); if (ok) dg = geom_digest(m, true); }
           else { PointCloud p; ok = dec.DecodeBufferToGeometry(&d2, &p).ok(); if (ok) dg = geom_digest(p, false); }
           rem = (long)d2.remaining_size();
